@@ -25,7 +25,7 @@ class AV:
                  'label', 'pv', 'orth', 'lg', 'deg', 'unit', 'taint', 'lay',
                  'fn', 'env', 'self_', 'attrs', 'ext', 'keys', 'cls', 'src',
                  'note', 'uninit', 'maybe_none', 'nonneg', 'normed', 'idx', 'lo', 'nonlin',
-                 'delta')
+                 'delta', 'cnt')
 
     def __init__(self, k, **kw):
         self.k = k
@@ -65,6 +65,9 @@ class AV:
         # 0 elsewhere and constant along every other axis; 'broken' = an
         # identity whose paired axes were scrambled by a reshape
         self.delta = None
+        # number of mode-index terms summed into every entry, as a fraction
+        # (num, den) of size polynomials; None = not tracked
+        self.cnt = None
         for a, v in kw.items():
             setattr(self, a, v)
         if k in ('list', 'dict', 'obj') and self.oid is None:
